@@ -838,9 +838,12 @@ Module WholeInput.
    The side conditions are executable (bool), are met by ordinary stories (legacy_story below; 600 generated
    nested legacy stories, all admissible_full, all compiled identically by the real compiler), and each part is
    needed: the `..._needed` examples, every one of which was also compiled in both forms by the real compiler with
-   the outcome the model shows.  Two of them are defects of the compiler found by proving this file:
-     F17n  an indented legacy header inside the block of a `-> @join` choice is text, its @ form ends the block
-     F17o  an unclosed `<<py` block is accepted and swallows the rest of the source, an unclosed `@py:` is rejected
+   the outcome the model shows.  Proving this file found two defects of the compiler, both repaired since (the model
+   follows the repaired code, and the two parts of the side condition that excluded them are gone):
+     F17n  an indented legacy header inside the block of a `-> @join` choice was text, its @ form ended the block;
+           now both end the block (legacy_header_in_join_block_fixed)
+     F17o  an unclosed `<<py` block was accepted and swallowed the rest of the source, an unclosed `@py:` was
+           rejected; now both are rejected (unclosed_legacy_python_block_rejected)
    (proposed_fixes/F17n-legacy-headers-in-join-block.diff, proposed_fixes/F17o-unclosed-legacy-python-block.diff).
 
    What the side condition is (Proofs/SurfaceFormsBase.v, SurfaceForms.v, SurfaceFormsPy.v):
@@ -854,8 +857,9 @@ Module WholeInput.
                    the compiler's own control flow run on ls (pre-pass, main loop, extractors, with the real
                    sub-extractors computing how many lines each construct consumes), with a test wherever a line
                    is read verbatim: no legacy header is (1) a body line of an @py: / <<py block, (2) a continuation
-                   line of a multi-line ~ statement, (3) a line of the block of a `-> @join` choice, (4) an indented
-                   line of the @metadata block, (5) a text line (a closer or <<elif>>/<<else>> outside its block).
+                   line of a multi-line ~ statement, (3) an indented line of the @metadata block, (4) a text line
+                   (a closer or <<elif>>/<<else>> outside its block).  (The block of a `-> @join` choice is no such
+                   place any more: since fix F17n a legacy header ends it like its @ form.)
                    It is evaluated with the oracle that accepts every ~ statement (pp_yes); that this suffices for
                    every oracle is part of the theorem. *)
 Import ListNotations.
@@ -878,9 +882,8 @@ Definition pp0 : pyparse := mkPyparse (fun _ => true) (fun _ => Some (0, [])).
      headers_in_header_position pp ls
                          the compiler's own control flow (pre-pass, main loop, the extractors, on ls), with one
                          extra test wherever a line is taken verbatim: no legacy header is read as Python code
-                         (body of an @py:/<<py block, continuation line of a multi-line ~ statement), as text (in the
-                         block of a `-> @join` choice; a stray <<elif>>/<<else>>/<<endif>>/<<endfor>> outside its
-                         block), or as a key of the @metadata block
+                         (body of an @py:/<<py block, continuation line of a multi-line ~ statement), as text (a stray
+                         <<elif>>/<<else>>/<<endif>>/<<endfor>> outside its block), or as a key of the @metadata block
      admissible ls       forallb hdr_ok ls && headers_in_header_position pp_yes ls *)
 
 Theorem legacy_and_at_forms_compile_identically : forall pp is_call ls,
@@ -1002,18 +1005,23 @@ Example legacy_header_in_statement_needed :
   let ls := [":: S"; "~ x = ["; "'''"; "<<endif>>"; "''']"] in
   forallb hdr_ok ls = true /\ admissible ls = false /\ differ ls.
 Proof. vm_compute. repeat split; reflexivity. Qed.
-(* position: in the block of a `-> @join` choice the legacy header is TEXT, its @ form ends the block and opens a
-   conditional -- defect F17n of the compiler (proposed_fixes/F17n-legacy-headers-in-join-block.diff) *)
-Example legacy_header_in_join_block_needed :
+(* WAS a position to exclude, defect F17n (fixed): in the block of a `-> @join` choice an indented legacy header was
+   TEXT of the block while its @ form ended the block and opened a conditional.  Now the legacy header ends the
+   block too: the input is admissible, the choice's block is empty and the conditional is compiled by the main loop,
+   in either form (regression witness of proposed_fixes/F17n-legacy-headers-in-join-block.diff) *)
+Example legacy_header_in_join_block_fixed :
   let ls := [":: S"; "* [R] -> @join"; "    <<if x>>"; "    a"; "    <<endif>>"; "@join"; "after"] in
-  forallb hdr_ok ls = true /\ admissible ls = false /\ differ ls /\
-  match ParseAllProofs.parse_real pp0 (fun _ => true) ls with
-  | POk a => option_map (fun p => map ch_block (choices p)) (lookup "S" (passages a)) =
-             Some [[TText "<<if x>>"; TText ParseMain.nl; TText "a"; TText ParseMain.nl; TText "<<endif>>"; TText ParseMain.nl]]
-  | _ => False
+  admissible ls = true /\
+  match ParseAllProofs.parse_real pp0 (fun _ => true) ls,
+        ParseAllProofs.parse_real pp0 (fun _ => true) (map to_at_form ls) with
+  | POk a, POk b => story_eqb a b = true /\
+      option_map (fun p => map ch_block (choices p)) (lookup "S" (passages a)) = Some [[]] /\
+      option_map content (lookup "S" (passages a)) =
+        Some [TCond [Branch "x" [TText "a"; TText ParseMain.nl] []]; TJoinMarker 0; TText "after"; TText ParseMain.nl]
+  | _, _ => False
   end.
 Proof. vm_compute. repeat split; reflexivity. Qed.
-(*   ... while a header indented no more than the choice ends the block in either form: admissible *)
+(*   a header indented no more than the choice ended the block in either form before the fix already *)
 Example legacy_header_after_join_block_fine :
   admissible [":: S"; "* [R] -> @join"; "    a"; "<<if x>>"; "b"; "<<endif>>"; "@join"; "after"] = true.
 Proof. vm_compute. reflexivity. Qed.
@@ -1049,7 +1057,8 @@ Proof. vm_compute. reflexivity. Qed.
                          @py: block no line reads `>>`
      rewritten_lines_in_position pp ls
                          as headers_in_header_position, for headers and delimiters; a legacy Python block that is
-                         entered must be closed and contain no line reading `@endpy` (legacy_py_ok)
+                         entered must contain no line reading `@endpy` (legacy_py_ok; since fix F17o it need not be
+                         closed: unclosed, both forms are rejected alike)
      admissible_full ls  forallb hdr_ok ls && forallb py_plain_line ls && pre_chk ls None false 0 &&
                          rewritten_lines_in_position pp_yes ls *)
 
@@ -1103,10 +1112,15 @@ Definition differ_full (ls : list string) : Prop :=
   end.
 
 (* py_plain_line: `<<py // note` is an opener for the compiler (the pre-pass drops the comment) but is not rewritten,
-   its `>>` is: the block is left without its closer *)
+   its `>>` is: the block is left without its closer (and, since fix F17o, rejected) *)
 Example decorated_python_opener_needed :
   let ls := [":: S"; "<<py // note"; "x = 1"; ">>"; "t"] in
-  forallb py_plain_line ls = false /\ admissible_full ls = false /\ differ_full ls.
+  forallb py_plain_line ls = false /\ admissible_full ls = false /\
+  match ParseAllProofs.parse_real pp0 (fun _ => true) ls with
+  | POk a => option_map execute (lookup "S" (passages a)) = Some [TPyBlock "x = 1"]
+  | _ => False
+  end /\
+  ParseAllProofs.parse_real pp0 (fun _ => true) (map to_at_full ls) = PDiag (DSyntax "py-unclosed" 1).
 Proof. vm_compute. repeat split; reflexivity. Qed.
 (* pre_chk / legacy_py_ok: a line reading `@endpy` inside a legacy block closes the rewritten block early *)
 Example endpy_in_legacy_block_needed :
@@ -1118,21 +1132,25 @@ Example closer_in_at_block_needed :
   let ls := [":: S"; "@py:"; "s = '''"; ">>"; "'''"; "@endpy"] in
   forallb py_plain_line ls = true /\ pre_chk ls None false 0 = false /\ admissible_full ls = false /\ differ_full ls.
 Proof. vm_compute. repeat split; reflexivity. Qed.
-(* legacy_py_ok: an unclosed legacy block is ACCEPTED and swallows the rest of the source, the @py: form is rejected
-   -- defect F17o of the compiler (proposed_fixes/F17o-unclosed-legacy-python-block.diff) *)
-Example unclosed_legacy_python_block_needed :
+(* WAS a part of legacy_py_ok, defect F17o (fixed): an unclosed legacy block was ACCEPTED and swallowed the rest of
+   the source (one passage S with the Python block "x = 1\n:: T\nt"), the @py: form was rejected.  Now both forms
+   are rejected with the same diagnostic at the opener, and the input is admissible (regression witness of
+   proposed_fixes/F17o-unclosed-legacy-python-block.diff) *)
+Example unclosed_legacy_python_block_rejected :
   let ls := [":: S"; "<<py"; "x = 1"; ":: T"; "t"] in
-  forallb py_plain_line ls = true /\ pre_chk ls None false 0 = true /\ admissible_full ls = false /\
-  match ParseAllProofs.parse_real pp0 (fun _ => true) ls with
-  | POk a => map fst (passages a) = ["S"] /\
-             option_map execute (lookup "S" (passages a)) = Some [TPyBlock ("x = 1" ++ ParseMain.nl ++ ":: T" ++ ParseMain.nl ++ "t")]
-  | _ => False
-  end /\
+  admissible_full ls = true /\
+  ParseAllProofs.parse_real pp0 (fun _ => true) ls = PDiag (DSyntax "py-unclosed" 1) /\
   ParseAllProofs.parse_real pp0 (fun _ => true) (map to_at_full ls) = PDiag (DSyntax "py-unclosed" 1).
 Proof. vm_compute. repeat split; reflexivity. Qed.
 (* position: a `>>` that closes nothing is a text line *)
 Example stray_python_closer_needed :
   let ls := [":: S"; ">>"] in forallb py_plain_line ls = true /\ admissible_full ls = false /\ differ_full ls.
+Proof. vm_compute. repeat split; reflexivity. Qed.
+(*   also inside the block of a `-> @join` choice, where `>>` is a text line of the block and `@endpy` ends the block
+     (what is left of join_safe after fix F17n) *)
+Example stray_python_closer_in_join_block_needed :
+  let ls := [":: S"; "* [R] -> @join"; "    >>"; "@join"] in
+  forallb py_plain_line ls = true /\ admissible_full ls = false /\ differ_full ls.
 Proof. vm_compute. repeat split; reflexivity. Qed.
 (* position: a legacy header inside a legacy Python block is Python code *)
 Example legacy_header_in_legacy_python_block_needed :
